@@ -578,6 +578,15 @@ def classify(res, name, model_args, exe_cmd, lines, keep, oracle, d, tier="quick
         if time.time() > deadline:
             return False
         return compare(model_args, exe_cmd, ls, timeout=tmo) is not None
+    vh = D.violating_history(lines, lambda ls: run_impl(exe_cmd, ls, tmo), oracle, keep_prefix=keep, budget=150)
+    if vh:
+        small, why = vh
+        rc, out_c, err = run_impl(exe_cmd, small, tmo)
+        res.violation("%s: the real code does not behave as one atomic queue: %s" % (name, why),
+                      {"correspondence": name, "model_args": model_args, "exe_args": exe_cmd[1:],
+                       "harness": os.path.basename(exe_cmd[0]), "ops": small,
+                       "disagreement": compare(model_args, exe_cmd, small, timeout=tmo) or d, "impl_output": out_c[:200], "oracle": why})
+        return
     small = D.ddmin(lines, still_fails, keep_prefix=keep, budget=150)
     d2 = compare(model_args, exe_cmd, small, timeout=tmo) or d
     rc, out_c, err = run_impl(exe_cmd, small, tmo)
